@@ -12,8 +12,9 @@ struct RunOpts {
   Plan* record;           // non-null: record the executed plan here
   std::string events_path;  // optional: dump event log / first-use order here
   std::string mode;       // check specific sub-mode
+  bool dry;               // generate (and record) the plan, do not execute it
   std::string emit_path;  // where main() will write *record (needed by paths that must _exit)
-  RunOpts() : seed(1), thorough(false), replay(nullptr), record(nullptr) {}
+  RunOpts() : seed(1), thorough(false), replay(nullptr), record(nullptr), dry(false) {}
 };
 
 // Each returns through Result; never throws.
